@@ -33,11 +33,11 @@ MB = 1 << 20
 
 class Case:
     KEYS = ("nbw", "jobsize", "level", "strat", "ovlog", "rsync", "ldm", "cksum", "wlog", "dict", "kind", "iseed", "isize",
-            "policy", "seed", "stay", "fam", "famarg", "sched", "prog")
+            "policy", "seed", "stay", "fam", "famarg", "probe", "sched", "prog")
 
     def __init__(self, **kw):
         d = dict(nbw=2, jobsize=MB, level=1, strat=0, ovlog=0, rsync=0, ldm=0, cksum=1, wlog=0, dict=0, kind=1, iseed=1,
-                 isize=2 * MB, policy="r", seed=1, stay=50, fam=0, famarg=0, sched="-", prog="E100000", dump="-", tag="")
+                 isize=2 * MB, policy="r", seed=1, stay=50, fam=0, famarg=0, probe=0, sched="-", prog="E100000", dump="-", tag="")
         d.update(kw)
         self.__dict__.update(d)
 
@@ -103,7 +103,7 @@ def gen_case(rng, quick=True):
     c = Case(nbw=nbw, jobsize=jobsize, level=rng.choice([1, 1, 1, 2, 3]), ovlog=rng.choice([0, 0, 1, 3, 5, 6, 7, 9]),
              rsync=1 if rng.random() < 0.2 else 0, ldm=1 if rng.random() < 0.15 else 0, cksum=rng.choice([0, 1, 1]),
              dict=rng.choice([0, 0, 0, 0, 1, 2]), kind=rng.choice([0, 1, 1, 1, 2, 3]), iseed=rng.getrandbits(30), isize=isize,
-             seed=rng.getrandbits(40), stay=rng.choice([0, 30, 60, 85, 95]))
+             seed=rng.getrandbits(40), stay=rng.choice([0, 30, 60, 85, 95]), probe=1 if rng.random() < 0.3 else 0)
     if c.ldm:
         c.wlog = rng.choice([20, 21, 22])
     x = rng.random()
@@ -154,6 +154,21 @@ def corpus(rng):
     C.append(Case(nbw=2, jobsize=512 * 1024, isize=2000000, prog="c0:100,e0:0,R,E100000", tag="abort-empty-job"))
     C.append(Case(nbw=2, jobsize=512 * 1024, isize=2000000, prog="c0:100,X0,e0:100000,E100000", tag="fault-empty-job"))
     C.append(Case(nbw=1, jobsize=512 * 1024, isize=2000000, prog="f0:100,e0:1,e0:100,E100000", tag="empty-frame-mt"))
+    # job table full (nextJobID == doneJobID + jobIDMask + 1): one pool thread, tiny output windows, jobs finish faster than they are flushed
+    C.append(Case(nbw=1, jobsize=512 * 1024, kind=0, isize=8 * 524288 + 100, prog="C4194404:1,E4194304", tag="ring-full-const"))
+    C.append(Case(nbw=1, jobsize=512 * 1024, kind=1, isize=7 * 524288, prog="C3670016:3000,E4194304", tag="ring-full-text"))
+    C.append(Case(nbw=2, jobsize=512 * 1024, kind=0, isize=12 * 524288, cksum=1, prog="C6291456:1,E100", tag="ring-full-2w"))
+    # three and four pool threads with several jobs in the serial section at once (overtaking needs a job to wait for more than one turn)
+    C.append(Case(nbw=3, jobsize=512 * 1024, kind=1, isize=6 * 524288, cksum=1, prog="E4194304", tag="serial-3w"))
+    C.append(Case(nbw=4, jobsize=512 * 1024, kind=3, isize=8 * 524288 + 77, cksum=1, prog="c4194381:4194304,E4194304", tag="serial-4w"))
+    # LDM window larger than what the pool threads hold: the round buffer wraps into the window of jobs that are past their serial section
+    C.append(Case(nbw=4, jobsize=512 * 1024, ldm=1, wlog=22, kind=3, isize=16 * 524288, prog="E4194304", tag="ldm-wrap-4w"))
+    C.append(Case(nbw=3, jobsize=512 * 1024, ldm=1, wlog=21, ovlog=6, kind=3, isize=14 * 524288, prog="c7340032:4194304,E4194304", tag="ldm-wrap-3w"))
+    # abandoned session with a job still running, then a different worker count (fix 0a1d6c3: wait before ZSTDMT_resize frees the pools)
+    C.append(Case(nbw=1, jobsize=512 * 1024, level=3, isize=6 * MB, prog="c524288:0,c524388:0,R,W3,E4194304", tag="abort-resize-up"))
+    C.append(Case(nbw=3, jobsize=512 * 1024, isize=6 * MB, prog="c1600000:0,R,W1,E4194304", tag="abort-resize-down"))
+    # progress queries between the calls
+    C.append(Case(nbw=2, jobsize=512 * 1024, isize=3 * MB, probe=1, prog="c700000:1000,c700000:100000,f300000:5000,c1000000:4194304,E65536", tag="progress"))
     # stage error: continue after the frame ended
     C.append(Case(nbw=2, jobsize=512 * 1024, isize=2 * MB, prog="e1000000:100,c1000:1000,E4194304,E4194304", tag="continue-after-end"))
     out = []
@@ -243,6 +258,12 @@ def build_model_case(tr):
     info_skip_win = False
     faults = {}        # (frame,id) -> stage
     nsteps = 0
+    # progress queries (PROBE begin .. PROBE end, printed by the caller while it runs): the caller's steps in between are not steps of
+    # the model.  A step line is printed when the step ENDS, so the first caller line after "PROBE begin" is still the last section
+    # of the call (compared, except for where the caller stands), and the first caller line after "PROBE end" is the last probe step.
+    probe = False
+    pend_on = pend_off = False
+    early_done = {}    # tid -> its current serial section was already stepped at the inner unlock of ldmWindowMutex
     for ln in tr.lines:
         if stop:
             break
@@ -282,6 +303,10 @@ def build_model_case(tr):
             after_init_marker = False
         elif ln.startswith("FAULT"):
             fault_pending = int(ln.split()[1])
+        elif ln == "PROBE begin":
+            pend_on = True
+        elif ln == "PROBE end":
+            pend_off = True
         elif ln.startswith("S "):
             head, _, rest = ln.partition(" mt ")
             t = head.split()
@@ -291,6 +316,17 @@ def build_model_case(tr):
             if st is not None and not all(k in st for k in ("mt", "ser", "pool", "jobs", "own", "th")):
                 st = None
             nsteps += 1
+            in_probe = probe or pend_on
+            if tid == 0:
+                if pend_on and pend_off:
+                    pend_on = pend_off = False       # the query took no lock
+                elif pend_on:
+                    pend_on, probe = False, True     # this line: last section before the query
+                elif pend_off:
+                    pend_off, probe = False, False   # this line: last step of the query
+                    continue
+                elif probe:
+                    continue
             if kind == "M":
                 held[tid] = held.get(tid, 0) + 1
                 if held[tid] == 1:
@@ -298,9 +334,17 @@ def build_model_case(tr):
             elif kind == "S":
                 sigw[tid] = w
             commit = False
+            early = False
             if kind in ("U", "W"):
                 held[tid] = max(0, held.get(tid, 0) - 1)
                 commit = held[tid] == 0
+                # a section of ldmWindowMutex nested in a serial.mutex section (ZSTDMT_serialState_update / _ensureFinished): the model
+                # executes the whole serial section as one step; its effects become visible to the only other observer of that state
+                # (the caller, which takes ldmWindowMutex alone) at the INNER unlock, and nothing it does afterwards under serial.mutex
+                # can be observed before the outer unlock.  The step is therefore linearised at the inner unlock.
+                if kind == "U" and name == "L" and held[tid] == 1 and tid != 0:
+                    early = True
+                    early_done[tid] = True
             if fault_pending is not None and tid == fault_pending and st is not None:
                 # the allocation failed inside this step: which job, which stage
                 secs = jobsec.get(tid, [])
@@ -310,10 +354,13 @@ def build_model_case(tr):
                 last_alldone = st["mt"][4]
             if first_after_begin:
                 first_after_begin = False
-                checks.append((nsteps, tid, st, "init"))       # initial state of the compared region (the caller's commit is not a model step)
+                checks.append((nsteps, tid, st, "init", False))       # initial state of the compared region (the caller's commit is not a model step)
                 if end_seen:
                     stop = True
                 continue
+            if early and st is not None:
+                steps.append((tid, 0))
+                checks.append((nsteps, tid, st, "S", in_probe))
             if commit and (begin or tid != 0):
                 if name == "?" and tid != 0:
                     name = "P"
@@ -373,8 +420,11 @@ def build_model_case(tr):
                             pays.setdefault((frame, int(jf[0])), dict(err="-", chunks=[], last=0, win="0:0:0:0", prev=0, done=False))["win"] = "%d:%d:%d:%d" % (a, a + b, c, c + d)
                 if st is not None and st["own"][-1] == "-1":
                     last_q = st["pool"][0]
-                steps.append((tid, sigw.get(tid, 0) if name == "P" and tid == 0 else 0))
-                checks.append((nsteps, tid, st, name))
+                if early_done.pop(tid, False) and name == "S":
+                    pass      # already stepped at the inner unlock
+                else:
+                    steps.append((tid, sigw.get(tid, 0) if name == "P" and tid == 0 else 0))
+                    checks.append((nsteps, tid, st, name, in_probe))
                 if tid == 0 and after_init_marker and st is not None:
                     # the new frame starts at the commit that turns allJobsCompleted from 1 (set by the previous frame's end or by
                     # ZSTDMT_releaseAllJobResources) to 0: the ZSTDMT_setBufferSize section of ZSTDMT_initCStream_internal
@@ -424,8 +474,9 @@ def ck_frame(checks, ck):
     return f
 
 
-def compare(cst, mst, skip_win=False):
-    """cst: C state dict (with own), mst: model state dict.  Returns list of differences."""
+def compare(cst, mst, skip_win=False, skip_t0=False):
+    """cst: C state dict (with own), mst: model state dict.  Returns list of differences.
+    skip_t0: the caller is inside a progress query (PROBE): where it stands is not compared."""
     diffs = []
     own = cst["own"]
     sep = own.index(";")
@@ -469,7 +520,7 @@ def compare(cst, mst, skip_win=False):
                 diffs.append("jobs[%d].%s impl=%s model=%s" % (k, n, cf[i], mf[i]))
     owners = {"S": oS, "L": oL, "B": oB, "C": oC, "Q": oQ, "P": oP}
     for t, (ct, mt_) in enumerate(zip(cst["th"], mst["th"])):
-        if mt_ == "X":
+        if mt_ == "X" or (t == 0 and skip_t0):
             continue
         kind, name = ct[0], ct[1:]
         if name == "?" or name == "-":
@@ -482,6 +533,8 @@ def compare(cst, mst, skip_win=False):
                 continue
         elif kind != "Z":
             continue
+        elif owners.get(COND_MUTEX.get(name[0], "?"), "-1") != "-1":
+            continue        # asleep on a condition whose mutex is held right now: the holder may be about to signal / have signalled
         if ct != mt_:
             diffs.append("thread %d stands at impl=%s model=%s" % (t, ct, mt_))
     return diffs
@@ -543,12 +596,14 @@ def process_chunk(args):
                 r["diff"] = "step %d (scheduler step %d): the implementation ran thread %d (section %s) but the model thread is disabled" % (i, ck[0], ck[1], ck[3] if len(ck) > 3 else "?")
                 break
             cst = ck[2]
-            if cst is None:
+            if cst is None or (len(ck) > 4 and ck[4]):
+                # (during a progress query the caller has yielded between two calls, where the model's step runs on into the next call
+                # up to its first lock: the implementation's state lags until the query is over)
                 continue
             mst = split_state(m)
             if "-2" in cst["ser"][1]:
                 info["skip_win"] = True      # LDM window refers to memory outside the round buffer (dictionary): addresses not modelled
-            d = compare(cst, mst, skip_win=info.get("skip_win", False))
+            d = compare(cst, mst, skip_win=info.get("skip_win", False), skip_t0=(len(ck) > 4 and ck[4]))
             if d:
                 r["diff"] = "after critical section %d (scheduler step %d, thread %d, %s): %s" % (i, ck[0], ck[1], ck[3] if len(ck) > 3 else "init", "; ".join(d[:4]))
                 break
@@ -563,8 +618,16 @@ class Runner:
     def __init__(self, ctx, variant="o1"):
         self.ctx = ctx
         self.variant = variant
-        self.h = core.build_harness("c11_mt", HARNESS_SRC, variant=variant, pre_include=PRE,
-                                    lib_exclude=["pool.c", "zstdmt_compress.c"], extra_flags=["-w", "-DZV_MAXSTEPS=16384"])
+        kw = dict(variant=variant, pre_include=PRE, lib_exclude=["pool.c", "zstdmt_compress.c"], extra_flags=["-w", "-DZV_MAXSTEPS=16384"])
+        try:
+            self.h = core.build_harness("c11_mt", HARNESS_SRC, **kw)
+        except RuntimeError as e:
+            if "jobCompleted" not in str(e):
+                raise
+            # ZSTDMT_jobDescription has no jobCompleted member (the sources predate fix c655545): build without reading it; the model's
+            # flag then has no counterpart and the lock-step reports it
+            ctx.notes["harness_fallback"] = "no jobCompleted member in ZSTDMT_jobDescription"
+            self.h = core.build_harness("c11_mt", HARNESS_SRC, extra_defs=["-DC11_NO_JOBCOMPLETED"], **kw)
         self.m = core.build_extracted("c11model", "Extract/Extract_C11.v", "c11_driver.ml")
         self.n = 0
 
@@ -723,24 +786,28 @@ def run(ctx):
     runner = Runner(ctx, "o1")
     if ctx.replay_file:
         return replay(ctx, runner)
+    t0 = time.time()
     ctx.prove()
     ctx.proof_verdict(proof_search(ctx, runner))
+    core.log("C11: proof step %.1fs" % (time.time() - t0))
     rng = random.Random(ctx.seed * 7919 + 11)
     cs = corpus(rng)
-    if ctx.quick:
-        cs = cs[::2] if len(cs) > 90 else cs
+    t0 = time.time()
     rs = runner.run(cs, "corpus")
+    core.log("C11: corpus %d cases %.1fs" % (len(cs), time.time() - t0))
     for c in cs[:3]:
         ctx.sample(c.line(0))
     report(ctx, runner, rs, "corpus")
-    n = 120 if ctx.quick else 2500
+    n = 100 if ctx.quick else 2500
     cs = [gen_case(rng) for _ in range(n)]
     hist = {}
     for c in cs:
         k = "nbw=%d fam=%d rsync=%d ldm=%d" % (c.nbw, c.fam, c.rsync, c.ldm)
         hist[k] = hist.get(k, 0) + 1
     ctx.notes["config_histogram"] = hist
+    t0 = time.time()
     rs = runner.run(cs, "random")
+    core.log("C11: random %d cases %.1fs" % (len(cs), time.time() - t0))
     for c in cs[:5]:
         ctx.sample(c.line(0))
     report(ctx, runner, rs, "random")
